@@ -33,15 +33,15 @@ UNIT = {
                         'g_errors', 'releaseFd->closed'],
             'ensures': [
                 # exactly one completion and one processFinished per process, carrying the same result
-                ('P:C10', 'g_completions == 1 && g_finished == 1 && g_completion_result.status == g_finished_result.status && g_completion_result.exitCode == g_finished_result.exitCode'),
+                ('P:C10,P:C16', 'g_completions == 1 && g_finished == 1 && g_completion_result.status == g_finished_result.status && g_completion_result.exitCode == g_finished_result.exitCode'),
                 # success is reported only for a process that was reaped and whose wait status word is 0 (normal exit with code 0):
                 # a signal-terminated, stopped or non-zero exit never counts as success
-                ('P:C10', '(g_completion_result.status == %sSucceeded) ==> (g_reaped && g_status_word == 0)' % PS),
-                ('P:C10', '(g_reaped && g_status_word == 0) ==> g_completion_result.status == %sSucceeded' % PS),
+                ('P:C10,P:C16', '(g_completion_result.status == %sSucceeded) ==> (g_reaped && g_status_word == 0)' % PS),
+                ('P:C10,P:C16', '(g_reaped && g_status_word == 0) ==> g_completion_result.status == %sSucceeded' % PS),
                 # killed by SIGINT / SIGKILL (how the engine cancels) is reported as cancelled, everything else that is not success as failed
-                ('P:C10', '(g_reaped && (g_status_word & 0x7f) != 0 && (g_status_word & 0x7f) != 0x7f && ((g_status_word & 0x7f) == 2 || (g_status_word & 0x7f) == 9)) ==> g_completion_result.status == %sCancelled' % PS),
-                ('P:C10', '(!g_reaped) ==> g_completion_result.status == %sFailed' % PS),
-                ('P:C10', 'g_reaped ==> g_completion_result.exitCode == g_status_word'),
+                ('P:C10,P:C16', '(g_reaped && (g_status_word & 0x7f) != 0 && (g_status_word & 0x7f) != 0x7f && ((g_status_word & 0x7f) == 2 || (g_status_word & 0x7f) == 9)) ==> g_completion_result.status == %sCancelled' % PS),
+                ('P:C10,P:C16', '(!g_reaped) ==> g_completion_result.status == %sFailed' % PS),
+                ('P:C10,P:C16', 'g_reaped ==> g_completion_result.exitCode == g_status_word'),
                 # the release descriptor is closed only after the wait, the pid leaves the process group only once reaped or given up
                 'releaseFd->closed != 0 && g_removed <= 1',
             ],
